@@ -1,5 +1,5 @@
 #!/venv/bin/python
-"""Regression over the behaviour-preserving refactorings collected from sub-agents (selftest/benign/*.diff, 42 patches, each confirmed
+"""Regression over the behaviour-preserving refactorings collected from sub-agents (selftest/benign/*.diff, two rounds, each confirmed
 by its author to keep behaviour and pass the tests): every check is run on a scratch copy with one patch applied.
 A VIOLATION (exit 1) on any of them is a false alarm of the checker and fails this script; exit 2 (inconclusive) is listed.
 usage: selftest/benign_run.py [-j N] [substring ...]"""
